@@ -163,9 +163,10 @@ theorem no_spurious_delete_fails_stale_index :
   have := h.2.2.2.1 rfl kA ⟨.str, 2, none⟩ (by decide) (by decide)
   revert this; decide
 
-/-- `PEXPIRE k 300`, the sweeper collects `k` after the deadline, `PERSIST`-like repair by a client is impossible
-    (the key is lazily gone), but BEFORE the deadline… — the window proper: the sweeper collects at 400 a key whose
-    deadline (300) has passed; between collect and delete a client re-creates it without TTL. -/
+/-- The window proper: the sweeper collects at 400 ms a key whose deadline (300 ms) has passed; between collect and
+    delete a client re-creates it without TTL (`windowSetRun`), or — the key being late-visible — gives it a long TTL
+    (`windowExpireRun`); `windowPersistRun` is the boundary instant `now = d` (collected by `d ≤ now`, not yet expired by
+    `now > d`), where PERSIST is legitimate and the key is deleted all the same. -/
 def windowSetRun : List Step :=
   [.op (.setValue kA .str 1 (some 300)) 0, .collect 400, .op (.setValue kA .str 2 none) 401, .delete 402]
 
